@@ -442,6 +442,9 @@ def run(ctx):
         replay(ctx, rec)
     batch = []
     singles(ctx, batch, ctx.n(150, 4000))
+    batch5 = []
+    C5.constructor_cases(ctx, batch5, ctx.n(60, 1200))      # the range must contain the table and T_ref (raw_data.py:51-63)
+    C5.compare_batch(ctx, batch5, 'corr:c05.eval')
     estimates(ctx, batch, ctx.n(120, 3000))
     range_fold(ctx, batch, ctx.n(400, 20000))
     shipped_estimates(ctx, batch, ctx.n(6, 60))
